@@ -33,7 +33,7 @@ ASSUMPTIONS = ["an alteration is a single bit flip in one answer of the device, 
 UD = "aa" * 16 + "bb" * 16
 
 
-def ledger_flow(rng, tmp, legacy, alter, wrong_root=False):
+def ledger_flow(rng, tmp, legacy, alter, wrong_root=False, **kw):
     """returns (stage reached, error, verify stdout, device)"""
     import admin.onboard as onboard
     import admin.ledger_attestation as latt
@@ -43,7 +43,7 @@ def ledger_flow(rng, tmp, legacy, alter, wrong_root=False):
     import admin.unlock as unlock
     from comm.platform import Platform
     import types
-    dev = genuine.GenuineLedger(rng, legacy_signer=legacy, alter=alter)
+    dev = genuine.GenuineLedger(rng, legacy_signer=legacy, alter=alter, **kw)
     world = env.World(device=dev)
     env.install_transport(world)
     Platform.set("Ledger")
@@ -83,7 +83,7 @@ def ledger_flow(rng, tmp, legacy, alter, wrong_root=False):
         sys.stdin = real
 
 
-def sgx_flow(rng, tmp, alter, wrong_root=False, **kw):
+def sgx_flow(rng, tmp, alter, wrong_root=False, root_variant=None, **kw):
     import admin.sgx_attestation as satt
     import admin.pubkeys as pubkeys
     import admin.verify_sgx_attestation as VS
@@ -122,7 +122,22 @@ def sgx_flow(rng, tmp, alter, wrong_root=False, **kw):
         if wrong_root:
             rk = v2.new_key(rng)
             rootc = v2.make_cert(rng, "SGX Root CA", "SGX Root CA", rk, rk)
-        open(rootp, "wb").write(rootc.public_bytes(serialization.Encoding.PEM))
+        pem = rootc.public_bytes(serialization.Encoding.PEM)
+        if root_variant == "sig-bit":
+            # the genuine root with one bit of its own signature flipped (same key, same names)
+            import base64
+            der = bytearray(rootc.public_bytes(serialization.Encoding.DER))
+            der[-1 - rng.randrange(8)] ^= 1 << rng.randrange(8)
+            b64 = base64.encodebytes(bytes(der)).decode().replace("\n", "")
+            pem = ("-----BEGIN CERTIFICATE-----\n" + "\n".join(b64[k:k + 64] for k in range(0, len(b64), 64))
+                   + "\n-----END CERTIFICATE-----\n").encode()
+        elif root_variant == "expired":
+            # a root re-issued for the same key whose validity period has lapsed
+            import datetime
+            lapsed = v2.make_cert(rng, "SGX Root CA", "SGX Root CA", dev.root_k, dev.root_k,
+                                  v2.NOW - datetime.timedelta(days=800), v2.NOW - datetime.timedelta(hours=3))
+            pem = lapsed.public_bytes(serialization.Encoding.PEM)
+        open(rootp, "wb").write(pem)
         opt = admincmd.Opt(attestation_certificate_file_path=att,
                            pubkeys_file_path=os.path.join(tmp, "sgx-keys.json"), root_authority=rootp)
         err, out = vc.run_cmd(VS.do_verify_attestation, opt)
@@ -145,12 +160,16 @@ def run(ctx):
     tmp = os.path.join(ctx["workdir"], "c15")
     os.makedirs(tmp, exist_ok=True)
     for i in range(n):
-        for legacy in (False, True):
-            stage, err, out, dev = ledger_flow(rng, tmp, legacy, None)
+        # the 109-byte UI message in 1, 2, 3 and 4 pages (4 is the most the manager accepts); the
+        # signer message in 1..5 pages
+        for legacy, kw in ((False, {}), (True, {}), (False, dict(ui_pages=255, pages=255)),
+                           (False, dict(ui_pages=60, pages=64)), (False, dict(ui_pages=37, pages=43)),
+                           (False, dict(ui_pages=28, pages=26)), (True, dict(ui_pages=28))):
+            stage, err, out, dev = ledger_flow(rng, tmp, legacy, None, **kw)
             note(res, stage)
             if stage != "ok":
                 res["violations"].append({"key": "C15:ledger-genuine-fails", "what": "genuine Ledger device "
-                                          "(legacy=%s) failed at %s: %s" % (legacy, stage, err)})
+                                          "(legacy=%s, page sizes %r) failed at %s: %s" % (legacy, kw, stage, err)})
             else:
                 obs = vc.parse_ledger_stdout(out)
                 exp_ud = bytes.fromhex(UD)
@@ -216,6 +235,13 @@ def run(ctx):
         if stage == "ok":
             res["violations"].append({"key": "C15:sgx-wrong-root-accepted", "what": "verified under a different "
                                       "root of trust"})
+        for rv in ("sig-bit", "expired"):
+            stage, err, out, dev = sgx_flow(rng, tmp, None, root_variant=rv)
+            note(res, stage)
+            if stage == "ok":
+                res["violations"].append({"key": "C15:sgx-altered-root-accepted:%s" % rv,
+                                          "what": "verified against an altered root of trust (%s) that still "
+                                                  "carries the genuine key" % rv})
     gather_correspondence(ctx, res)
     return res
 
